@@ -1,4 +1,4 @@
-import CCV.Lemmas.OptimizerMeta
+import CCV.Lemmas.OptimizerMetaValue
 /-
   C06 — graph optimisation preserves meaning and interface (and part (b) of C04 on the same model).
 
@@ -12,10 +12,12 @@ import CCV.Lemmas.OptimizerMeta
   randomising nodes are never merged (`*_special`), the oracle `transport m rO` (the draw of the
   source node) is always compatible (`*_transport`).
 
-  Proved: constants, duplicates, dangling — value of every mapped node and of the output, input
-  interface, closedness, annotations, C04(b).  The meta pass and therefore the pipeline: full
-  statements as `def …Statement`, proved for the pipeline relative to the meta stage
-  (`optimize_value_partial`).
+  Proved: all four passes — value of every mapped node and of the output, input interface,
+  closedness, annotations, C04(b) — and the pipeline `optimize` (`optimize_sound`).  The meta pass
+  (`metaOps_sound`) is proved from the algebraic laws of the structural operations (`MetaLaws`:
+  getter-of-constructor, Zip, ArrayToVector, A2B/B2A inverses and the typing of the nodes the pass
+  creates) by the loop invariant "a proxy object denotes the value of its node" (`Den`, nested
+  proxies included; Lemmas/OptimizerMetaValue.lean).
 -/
 namespace CCV.C06
 open CCV.Optimizer
@@ -265,8 +267,8 @@ example : chain [[some 0, some 1, some 1], [some 1, some 0], [some 0, none], [so
 
 /-- meta pass, proved part (2)(3): every source node is mapped to a node of the result; the Input
     nodes are preserved in order with type and name (the nodes the pass creates are never Inputs);
-    the result is closed, its output in range, its Input nodes dependency-free.
-    Not proved: value preservation, annotations, C04(b) — see `MetaStatement`. -/
+    the result is closed, its output in range, its Input nodes dependency-free.  (Name kept;
+    value preservation, annotations and C04(b) are `metaOps_sound`.) -/
 theorem metaOps_interface_partial (g g' : Graph) (m : Mapping) (hc : Closed g.nodes)
     (h : metaOps g = some (g', m)) :
     (∀ i, i < g.nodes.length → ∃ k, Maps m i k ∧ k < g'.nodes.length) ∧
@@ -290,22 +292,86 @@ example : (metaOps gMeta).map (fun r => (r.1.out, (r.1.nodes.getD 1 default).ann
     (r.1.nodes.getD 7 default).op, (r.1.nodes.getD 7 default).deps)) =
     some (7, [3], .get 1, [0]) := by decide +kernel
 
-/-- FULL STATEMENT for the meta pass (value part not proved): under the laws of the structural
-    operations (`MetaLaws`) and when the recorded type summaries describe the values (`TyOK`),
-    every node is mapped to a node with the same value, annotations are on the image, and
-    randomising / PRF / input nodes are preserved (C04(b), `SpecialInj`: a getter may be resolved to
-    a randomising node, so injectivity is among such nodes).
-    Missing: the loop invariant "a proxy object denotes the value of its node" for nested proxies. -/
+/-- FULL STATEMENT for the meta pass, now proved (`metaOps_sound`): under the laws of the
+    structural operations (`MetaLaws`), when the recorded type summaries describe the values
+    (`TyOK`), arities are as the type checker guarantees (`MetaWF`) and VectorGet / Zip are applied
+    to vectors (`VecOK`; follows from `VecWF` on recorded types, `VecWF.ok`): every node is mapped
+    to a node with the same value, the recorded types of the result describe its values (so the
+    statement composes), annotations are on the image, and randomising / PRF / input nodes are
+    preserved (C04(b), `SpecialInj`: a getter may be resolved to a randomising node, so injectivity
+    is among such nodes, and the randomising node is the first node mapped to its image).
+    Hypotheses changed w.r.t. the earlier unproved version: `one`/`stOf` became the type summary
+    `tyv` (the pass re-reads the type of nodes it created itself, which the two observations could
+    not express); `MetaWF` and `VecOK` are new (without them the model statement is false: e.g. a
+    CreateNamedTuple with a repeated field name, or an A2B node with two dependencies). -/
 def MetaStatement : Prop :=
-  ∀ (V : Type) (sem : Op → List V → V) (inp : Nat → V) (dv : V) (one : V → Bool) (stOf : V → Nat)
+  ∀ (V : Type) (sem : Op → List V → V) (inp : Nat → V) (dv : V) (tyv : V → Ty)
     (g g' : Graph) (m : Mapping) (rO rN : Nat → List V → V),
-    MetaLaws sem one stOf → Closed g.nodes → metaOps g = some (g', m) →
-    TyOK sem inp dv rO one stOf g.nodes → Compat g.nodes m rO rN →
+    MetaLaws sem tyv → Closed g.nodes → MetaWF g.nodes → metaOps g = some (g', m) →
+    TyOK sem inp dv rO tyv g.nodes → VecOK sem inp dv rO tyv g.nodes → Compat g.nodes m rO rN →
     (∀ i k, Maps m i k →
       (eval sem inp dv rN g'.nodes).getD k dv = (eval sem inp dv rO g.nodes).getD i dv) ∧
+    TyOK sem inp dv rN tyv g'.nodes ∧
     SpecialInj g.nodes g'.nodes m ∧
     (∀ i k n, Maps m i k → g.nodes[i]? = some n →
       ∃ n', g'.nodes[k]? = some n' ∧ ∀ a ∈ n.ann, a ∈ n'.ann)
+
+/-- (1)(4)(5) for the meta pass -/
+theorem metaOps_sound : MetaStatement := by
+  intro V sem inp dv tyv g g' m rO rN L hc hwf h hty hvo hcomp
+  obtain ⟨h1, h2⟩ := metaOps_value L g g' m hc hwf h hty hvo hcomp
+  obtain ⟨h3, h4⟩ := metaOps_special g g' m hc h
+  exact ⟨h1, h2, h3, h4⟩
+
+/-- the output value is preserved by the meta pass -/
+theorem metaOps_output (sem : Op → List V → V) (inp : Nat → V) (dv : V) (tyv : V → Ty)
+    (g g' : Graph) (m : Mapping) (rO rN : Nat → List V → V) (L : MetaLaws sem tyv)
+    (hc : Closed g.nodes) (hwf : MetaWF g.nodes) (h : metaOps g = some (g', m))
+    (hty : TyOK sem inp dv rO tyv g.nodes) (hvo : VecOK sem inp dv rO tyv g.nodes)
+    (hcomp : Compat g.nodes m rO rN) (ho : g.out < g.nodes.length) :
+    (eval sem inp dv rN g'.nodes).getD g'.out dv = (eval sem inp dv rO g.nodes).getD g.out dv := by
+  obtain ⟨k, hk, _⟩ := (metaOps_closed g g' m hc h).2.1 g.out ho
+  rw [metaOps_out g g' m h, look_of_maps hk]
+  exact (metaOps_value L g g' m hc hwf h hty hvo hcomp).1 g.out k hk
+
+/-- the source oracle transported along the mapping is compatible (a randomising node is the first
+    node mapped to its image) -/
+theorem metaOps_transport (g g' : Graph) (m : Mapping) (hc : Closed g.nodes)
+    (h : metaOps g = some (g', m)) (rO : Nat → List V → V) :
+    Compat g.nodes m rO (transport m rO) :=
+  compat_transport_inj (metaOps_special g g' m hc h).1 rO
+
+/- non-vacuity of the hypotheses of `metaOps_sound`: the one-point semantics satisfies `MetaLaws`
+   (the laws are jointly satisfiable), and on `gMetaU` (tuple / named-tuple getters resolved through
+   nested proxies, B2A∘A2B) all hypotheses hold; the intended model of the laws is the evaluator of
+   ciphercore, which the harness replays on every generated graph.
+   0 in · 1 random · 2 tuple(0,1) · 3 named{7,8}(2,0) · 4 ntg 7 (3) → 2 · 5 tg 1 (4) → 1 ·
+   6 a2b(0) · 7 b2a(6) -/
+def gMetaU : Graph :=
+  ⟨[⟨.input 0, [], [], none, .other⟩, ⟨.random 5, [], [], none, .other⟩,
+    ⟨.createTuple, [0, 1], [], none, .other⟩, ⟨.createNamedTuple [7, 8], [2, 0], [], none, .other⟩,
+    ⟨.namedTupleGet 7, [3], [], none, .other⟩, ⟨.tupleGet 1, [4], [4], none, .other⟩,
+    ⟨.a2b, [0], [], none, .other⟩, ⟨.b2a 3, [6], [], none, .other⟩], 5⟩
+
+theorem unitLaws : MetaLaws (fun (_ : Op) (_ : List Unit) => ()) (fun _ => Ty.other) :=
+  ⟨(by intros; rfl), (by intros; rfl), (by intros; rfl), (by intros; rfl), (by intros; rfl),
+   (by intros; rfl), (by intros; rfl), (by intro a c st h; cases h), (by intros; rfl),
+   (by intro v i e h; cases h), (by intros; rfl)⟩
+
+example : (metaOps gMetaU).map (·.2) =
+    some [some 0, some 1, some 2, some 3, some 2, some 1, some 6, some 7] := by decide +kernel
+example : Closed gMetaU.nodes ∧ MetaWF gMetaU.nodes ∧ VecWF gMetaU.nodes :=
+  ⟨closed_of_closedFrom _ (by decide), by unfold MetaWF; decide, by
+    intro i n hn
+    have : n.op ≠ .vectorGet ∧ n.op ≠ .zip := by
+      have hall : ∀ n ∈ gMetaU.nodes, n.op ≠ .vectorGet ∧ n.op ≠ .zip := by decide
+      exact hall n (List.mem_of_getElem? hn)
+    exact ⟨fun h => absurd h this.1, fun h => absurd h this.2⟩⟩
+example (inp : Nat → Unit) (r : Nat → List Unit → Unit) :
+    TyOK (fun _ _ => ()) inp () r (fun _ => Ty.other) gMetaU.nodes := by
+  intro i n hn
+  have hall : ∀ n ∈ gMetaU.nodes, n.ty = .other := by decide
+  exact (hall n (List.mem_of_getElem? hn)).symm
 
 /-- the stages of `optimize` -/
 theorem optimize_stages (oracle : Nat → Nat × Option Nat) (g g' : Graph) (m : Mapping)
@@ -344,19 +410,28 @@ theorem optimize_interface (oracle : Nat → Nat × Option Nat) (g g' : Graph) (
   obtain ⟨i4, c4, o4, _⟩ := dangling_interface (duplicates g2).1 c3 w3
   exact ⟨by rw [i4, i3, i2, i1], c4, I4.tr.inputWF w3, fun ho => o4 (o3 (o2 (o1 ho)))⟩
 
-/-- FULL STATEMENT for the pipeline (value part): `optimize` preserves the value of every node the
-    joined mapping still maps, for some oracle of the result built from the source oracle. -/
+/-- FULL STATEMENT for the pipeline (value part), now proved (`optimize_sound`): `optimize`
+    preserves the value of every node the joined mapping still maps, and of the output, for the
+    oracle of the result obtained by transporting the source oracle along the four stage mappings.
+    Besides well-formedness of the graph, the only hypotheses are the laws of the structural
+    operations and `hor`: the evaluator oracle of the constants pass yields the right constants. -/
 def OptimizeStatement : Prop :=
-  ∀ (V : Type) (sem : Op → List V → V) (inp : Nat → V) (dv : V) (one : V → Bool) (stOf : V → Nat)
+  ∀ (V : Type) (sem : Op → List V → V) (inp : Nat → V) (dv : V) (tyv : V → Ty)
     (oracle : Nat → Nat × Option Nat) (g g' : Graph) (m : Mapping) (rO : Nat → List V → V),
-    MetaLaws sem one stOf → Closed g.nodes → ConstWF g.nodes → InputWF g.nodes →
-    g.out < g.nodes.length → optimize oracle g = some (g', m) →
+    MetaLaws sem tyv → Closed g.nodes → ConstWF g.nodes → InputWF g.nodes → MetaWF g.nodes →
+    TyOK sem inp dv rO tyv g.nodes → VecOK sem inp dv rO tyv g.nodes →
+    optimize oracle g = some (g', m) →
+    (∀ i k n n', Maps (constants oracle g).2 i k → g.nodes[i]? = some n →
+      (constants oracle g).1.nodes[k]? = some n' → n'.op.isConstant → n'.op ≠ n.op →
+      sem n'.op [] = (eval sem inp dv rO g.nodes).getD i dv) →
     ∃ rN : Nat → List V → V,
-      ∀ i k, Maps m i k →
-        (eval sem inp dv rN g'.nodes).getD k dv = (eval sem inp dv rO g.nodes).getD i dv
+      (∀ i k, Maps m i k →
+        (eval sem inp dv rN g'.nodes).getD k dv = (eval sem inp dv rO g.nodes).getD i dv) ∧
+      (g.out < g.nodes.length →
+        (eval sem inp dv rN g'.nodes).getD g'.out dv = (eval sem inp dv rO g.nodes).getD g.out dv)
 
-/-- (1) for the pipeline relative to its meta stage: if the meta stage maps each node of the
-    constants-stage output to an equal-valued node (`hv2`, the unproved part of `MetaStatement`),
+/-- (1) for the pipeline relative to its meta stage (kept; `optimize_sound` discharges `hrest`):
+    if the meta stage maps each node of the constants-stage output to an equal-valued node,
     then `optimize` maps every node the joined mapping `chain [m1, m2, m3, m4]` still maps to a node
     with the same value; in particular the output. `r0 … r4` are the oracles of the five graphs,
     compatible along the stage mappings (e.g. obtained by `transport`). -/
@@ -408,5 +483,35 @@ theorem optimize_value_partial (oracle : Nat → Nat × Option Nat) (g g' : Grap
   have e4 := dangling_output (duplicates g2).1 c3 w3 ((duplicates_interface g2 c2).2.2.1 (o2 o1))
     sem inp dv r3 r4 h4
   rw [e4, e3, hg2out, e2, e1]
+
+/-- (1) for the whole pipeline -/
+theorem optimize_sound : OptimizeStatement := by
+  intro V sem inp dv tyv oracle g g' m r0 L hc hcw hiw hwf hty hvo h hor
+  obtain ⟨_, g2, m2, hm, hg', hmm⟩ := optimize_stages oracle g g' m h
+  have h1 := constants_transport oracle g hc hcw r0
+  have hv1 := (constants_value oracle g hc hcw sem inp dv r0 _ h1 hor).2
+  obtain ⟨hty1, hwf1, hvo1⟩ := constants_keeps oracle g hc hcw hwf sem inp dv r0 _ tyv hty hv1
+  have c1 := (constants_interface oracle g hc hcw).2.1
+  have w1 : InputWF (constants oracle g).1.nodes := (constants_inv oracle g hc hcw).tr.inputWF hiw
+  have h2 := metaOps_transport _ g2 m2 c1 hm (transport (constants oracle g).2 r0)
+  have hv2 := (metaOps_value L _ g2 m2 c1 hwf1 hm hty1 (hvo1 hvo) h2).1
+  obtain ⟨_, _, c2, _, w2⟩ := metaOps_interface_partial _ g2 m2 c1 hm
+  have h3 := duplicates_transport g2 c2 (transport m2 (transport (constants oracle g).2 r0))
+  have c3 := (duplicates_interface g2 c2).2.1
+  have w3 : InputWF (duplicates g2).1.nodes := (duplicates_inv g2 c2).tr.inputWF (w2 w1)
+  have h4 := dangling_transport (duplicates g2).1 c3 w3
+    (transport (duplicates g2).2 (transport m2 (transport (constants oracle g).2 r0)))
+  refine ⟨transport (dangling (duplicates g2).1).2 (transport (duplicates g2).2
+      (transport m2 (transport (constants oracle g).2 r0))),
+    optimize_value_partial oracle g g' m hc hcw hiw h sem inp dv r0
+      (transport (constants oracle g).2 r0) (transport m2 (transport (constants oracle g).2 r0))
+      (transport (duplicates g2).2 (transport m2 (transport (constants oracle g).2 r0))) _ hor h1 ?_⟩
+  intro g2' m2' hm'
+  rw [hm] at hm'
+  simp only [Option.some.injEq, Prod.mk.injEq] at hm'
+  obtain ⟨rfl, rfl⟩ := hm'
+  exact ⟨hv2, h3, h4⟩
+
+-- non-vacuity: on `gEx` the pipeline folds, merges and drops nodes (see the stage examples above)
 
 end CCV.C06
